@@ -1043,6 +1043,10 @@ def _conform_time(time: int | float | str | dt.datetime, col_type: pa.DataType):
         if not isinstance(time, dt.datetime):
             # UNIX seconds denote an instant; timestamp columns hold naive UTC times
             return dt.datetime.fromtimestamp(time, dt.timezone.utc).replace(tzinfo=None)
+        if isinstance(time, pd.Timestamp) and time.tzinfo is None:
+            # Arrow converts datetime objects at microsecond resolution, which would
+            # drop the nanoseconds of a pandas timestamp
+            return pa.scalar(time.to_datetime64())
     elif isinstance(time, dt.datetime):
         return time.timestamp()
 
